@@ -303,7 +303,9 @@ pub fn gen_step(args: &Args) {
         label_chance(&mut t);
         let meth = METHODS[(id % 3) as usize];
         let par = gen_params(&mut r);
-        let it = *r.pick(&[1i64, 2, 3, 7, 50, 64, 255, 256, 1000, 1024, 1025, 4096, 65536, 65537]);
+        // the iteration index: small ones, powers of two and their neighbours, round numbers - and, for a third of the
+        // cases, any index up to 300 (something done only every k-th iteration shows at a multiple of k)
+        let it = if r.chance(0.33) { r.range(2, 300) } else { *r.pick(&[1i64, 2, 3, 7, 50, 64, 255, 256, 1000, 1024, 1025, 4096, 65536, 65537]) };
         let mut state = Vec::new();
         for pl in 1..=2u8 {
             let mut infos = BTreeMap::new();
